@@ -13,7 +13,8 @@ open LinVerif.VersionSet LinVerif.TableCache
 /-- frame facts along a run from a reachable state of the proved variant (the step of a commit
 that stores the file counter back needs `Safe`: the number it read is still the counter) -/
 theorem frame_run {cfg : Cfg} {acts : List Act} {s s' : St} (hr : cfg.recheck = true) (hcl : cfg.cloneLocked = true)
-    (hal : cfg.allocLocked = true) (hs : Safe s) (h : run cfg s acts = some s') : Frame s s' := by
+    (hal : cfg.allocLocked = true) (hfe : cfg.findErrReleases = false) (hs : Safe s) (h : run cfg s acts = some s') :
+    Frame s s' := by
   induction acts generalizing s with
   | nil => simp only [run] at h; cases h; exact Frame.refl _
   | cons a rest ih =>
@@ -21,7 +22,7 @@ theorem frame_run {cfg : Cfg} {acts : List Act} {s s' : St} (hr : cfg.recheck = 
     split at h
     next s1 hs1 =>
       exact Frame.trans (frame_step (fun k hk hp => (hs.jobs k hk).nfread hp) hs1)
-        (ih (safe_step hr hcl hal hs hs1) h)
+        (ih (safe_step hr hcl hal hfe hs hs1) h)
     next => cases h
 
 /-- the content of version data `v` for key `k` given the table contents -/
